@@ -145,7 +145,7 @@ Definition entry (sel : Z) (toks : list Z) : list Z :=
   | 3 => match run_dec dVoteCase toks with
          | Some (eps, _, _, ps) => run_votes (answer_prop eps) ps
          | None => bad_input end
-  | 4 => eBool (Nat.eqb (length toks) 8)
+  | 4 => eBool (Nat.eqb (length toks) 8 || Nat.eqb (length toks) 11)
   | 5 => eBool (Nat.eqb (length toks) 5)
   | 6 => eBool (Nat.eqb (length toks) 8)
   | 7 => eBool (match toks with _ :: _ :: _ => true | _ => false end)
